@@ -14,7 +14,9 @@ use std::sync::{Arc, Mutex};
 use std::task::{Context, Poll, Waker};
 
 struct Pend {
+    // `fut` borrows the runner kept alive by `_keep` (declared after it, so dropped after it)
     fut: Pin<Box<dyn Future<Output = Token>>>,
+    _keep: Arc<Runner>,
     flag: Arc<WakeFlag>,
     polled: bool,
     wakes_at_pending: u64,
@@ -171,8 +173,11 @@ pub fn c13(cx: &mut Ctx) -> VResult {
                 let live_r: Vec<usize> = runners.iter().enumerate().filter(|(_, r)| r.is_some()).map(|(i, _)| i).collect();
                 let ri = live_r[cx.ch.pick(live_r.len() as u32) as usize];
                 let r = runners[ri].as_ref().expect("runner").clone();
-                let fut: Pin<Box<dyn Future<Output = Token>>> = Box::pin(async move { r.get_token().await });
-                pend.push(Pend { fut, flag: WakeFlag::new(false), polled: false, wakes_at_pending: 0, runner: ri, id: next_id });
+                // call get_token() NOW (not lazily at the first poll): a created-but-unpolled request is part of
+                // the histories the property quantifies over. The future borrows the runner, which `_keep` keeps alive.
+                let rp: *const Runner = Arc::as_ptr(&r);
+                let fut: Pin<Box<dyn Future<Output = Token>>> = Box::pin(unsafe { (*rp).get_token() });
+                pend.push(Pend { fut, _keep: r, flag: WakeFlag::new(false), polled: false, wakes_at_pending: 0, runner: ri, id: next_id });
                 history.push(format!("new#{next_id}@r{ri}"));
                 cx.ev("new_request", next_id as u64, ri as u64);
                 if ri > 0 { cx.probe("clone_used"); }
